@@ -16,17 +16,17 @@ the NUL, or for `k = slen` the cell `src[slen]` that `while (*src && slen)` read
 * leaves in each of the `k` cells the mapping `f` of what it held (as a 32-bit pattern), and
 * changes nothing else: not the NUL, not a cell behind it, not a cell below `src`.
 
-Proved for the shared text `wcase_s f` and EVERY mapping `f`, then instantiated: `towlowerLibc` (what glibc's "C"-locale
+Proved for the shared text `wcase_s rb f` and EVERY mapping `f`, then instantiated: `towlowerLibc` (what glibc's "C"-locale
 `towlower` was measured to do) and `towupperLib` (the model of the library's `_towupper`).
 -/
 namespace SafeC.Props.C06WCase
 open SafeC Gen
 
 /-- the loop, by induction on its counter -/
-theorem wcaseLoop_spec (f : Nat → Nat) (slen : Nat) : ∀ (src k : Nat) (st : St), k ≤ slen →
+theorem wcaseLoop_spec (rb : Bool) (f : Nat → Nat) (slen : Nat) : ∀ (src k : Nat) (st : St), k ≤ slen →
     (∀ i, i < k → st.data (src+i) ≠ 0) → (k < slen → st.data (src+k) = 0) →
     RW st src k → st.mapped (src+k) = true → st.rd (src+k) = true →
-    ∃ st', exec (wcaseLoop f slen src) st = .ok ((), st') ∧
+    ∃ st', exec (wcaseLoop rb f slen src) st = .ok ((), st') ∧
       (∀ i, i < k → st'.data (src+i) = f (st.data (src+i)) % 2^32) ∧
       (∀ a, ¬ (src ≤ a ∧ a < src + k) → st'.data a = st.data a) ∧
       st'.events = st.events ∧ st'.strays = st.strays ∧ st'.mapped = st.mapped ∧ st'.rd = st.rd ∧ st'.wr = st.wr := by
@@ -37,8 +37,10 @@ theorem wcaseLoop_spec (f : Nat → Nat) (slen : Nat) : ∀ (src k : Nat) (st : 
     subst k0
     refine ⟨st, ?_, fun i hi => absurd hi (by omega), fun _ _ => rfl, rfl, rfl, rfl, rfl, rfl⟩
     unfold wcaseLoop
-    rw [exec_bind, exec_load_ok _ _ (by simpa using hm) (by simpa using hr)]
-    rfl
+    split
+    · rw [exec_bind, exec_load_ok _ _ (by simpa using hm) (by simpa using hr)]
+      rfl
+    · rfl
   | succ n ih =>
     intro src k st hk hnz hend hrw hm hr
     cases k with
@@ -83,18 +85,18 @@ theorem wcaseLoop_spec (f : Nat → Nat) (slen : Nat) : ∀ (src k : Nat) (st : 
         exact d1 a (by omega)
 
 /-- the shared text, every mapping `f` -/
-theorem wcase_s_C06 (f : Nat → Nat) (src slen k : Nat) (b : Bos) (st : St)
+theorem wcase_s_C06 (rb : Bool) (f : Nat → Nat) (src slen k : Nat) (b : Bos) (st : St)
     (hs : src ≠ 0) (h0 : 0 < slen) (hmax : slen ≤ RSIZE_MAX_WSTR)
     (hb : ∀ bos, b = some bos → slen * SIZEOF_WCHAR_T ≤ bos)
     (hk : k ≤ slen) (hnz : ∀ i, i < k → st.data (src+i) ≠ 0) (hend : k < slen → st.data (src+k) = 0)
     (hrw : RW st src k) (hm : st.mapped (src+k) = true) (hr : st.rd (src+k) = true) :
-    ∃ st', exec (wcase_s f src slen b) st = .ok (EOK, st') ∧
+    ∃ st', exec (wcase_s rb f src slen b) st = .ok (EOK, st') ∧
       (∀ i, i < k → st'.data (src+i) = f (st.data (src+i)) % 2^32) ∧
       (∀ a, ¬ (src ≤ a ∧ a < src + k) → st'.data a = st.data a) ∧
       st'.events = st.events ∧ st'.strays = st.strays := by
-  obtain ⟨st', he, h1, h2, h3, h4, _⟩ := wcaseLoop_spec f slen src k st hk hnz hend hrw hm hr
+  obtain ⟨st', he, h1, h2, h3, h4, _⟩ := wcaseLoop_spec rb f slen src k st hk hnz hend hrw hm hr
   refine ⟨st', ?_, h1, h2, h3, h4⟩
-  have body : exec (do wcaseLoop f slen src; pure EOK : Prog Nat) st = .ok (EOK, st') := by
+  have body : exec (do wcaseLoop rb f slen src; pure EOK : Prog Nat) st = .ok (EOK, st') := by
     rw [exec_bind, he]; rfl
   have hz : ¬ slen = 0 := by omega
   have hx : ¬ slen > RSIZE_MAX_WSTR := by omega
@@ -115,7 +117,7 @@ theorem wcslwr_s_C06 (cfg : Cfg) (src slen k : Nat) (b : Bos) (st : St)
       (∀ i, i < k → st'.data (src+i) = towlowerLibc (st.data (src+i)) % 2^32) ∧
       (∀ a, ¬ (src ≤ a ∧ a < src + k) → st'.data a = st.data a) ∧
       st'.events = st.events ∧ st'.strays = st.strays :=
-  wcase_s_C06 _ src slen k b st hs h0 hmax hb hk hnz hend hrw hm hr
+  wcase_s_C06 _ _ src slen k b st hs h0 hmax hb hk hnz hend hrw hm hr
 
 /-- **wcsupr_s**: the same with the library's `_towupper` -/
 theorem wcsupr_s_C06 (cfg : Cfg) (src slen k : Nat) (b : Bos) (st : St)
@@ -127,7 +129,7 @@ theorem wcsupr_s_C06 (cfg : Cfg) (src slen k : Nat) (b : Bos) (st : St)
       (∀ i, i < k → st'.data (src+i) = towupperLib (st.data (src+i)) % 2^32) ∧
       (∀ a, ¬ (src ≤ a ∧ a < src + k) → st'.data a = st.data a) ∧
       st'.events = st.events ∧ st'.strays = st.strays :=
-  wcase_s_C06 _ src slen k b st hs h0 hmax hb hk hnz hend hrw hm hr
+  wcase_s_C06 _ _ src slen k b st hs h0 hmax hb hk hnz hend hrw hm hr
 
 /-- glibc's "C"-locale `towlower`, as measured, in closed form: the 26 ASCII capitals and nothing else — for every cell value -/
 theorem towlowerLibc_eq (c : Nat) : towlowerLibc c = if 0x41 ≤ c ∧ c ≤ 0x5A then c + 32 else c := by
